@@ -157,7 +157,9 @@ pub fn ref_at(i: usize) -> UtxoRef {
         dangling()
     } else {
         // neighbours are outputs of one transaction (same txid, indices i and i + 1): a UTxO is its txid AND its index
-        tirb::utxo_ref((i / 2) as u8 + 1, i as u32)
+        // and the index is a full integer: the second output sits 65536 above the first, so the two agree in their low
+        // 16 bits
+        tirb::utxo_ref((i / 2) as u8 + 1, if i % 2 == 1 { (i as u32 - 1) + 65536 } else { i as u32 })
     }
 }
 
@@ -520,16 +522,20 @@ fn run_store(alpha: &Alpha, idxs: &[usize], all_orders: bool) -> Outcome {
     o
 }
 
-fn run_window(total: usize, with_token: bool, many: bool) -> Outcome {
-    // `total` UTxOs at A of which exactly one (the last) can cover the request
-    let mut cs: Vec<Content> = (0..total - 1).map(|_| Content { addr: 0, amt: [1, 0, 0] }).collect();
-    cs.push(Content { addr: 0, amt: [5, if with_token { 1 } else { 0 }, 0] });
+fn run_window(total: usize, with_token: bool, many: bool, shape: &str) -> Outcome {
+    // `total` UTxOs at A. last-covers / first-covers: exactly one (the last / first in ref order) can cover the request;
+    // all-needed: every one holds 1 lovelace (one of them also the token) and the request is for all of it, so a
+    // `many` selection has to be offered the whole window
+    let t = if with_token { 1 } else { 0 };
+    let (special, plain, want) = if shape == "all-needed" { ([1, t, 0], [1, 0, 0], total as i128) } else { ([5, t, 0], [1, 0, 0], 5) };
+    let at = if shape == "first-covers" { 0 } else { total - 1 };
+    let cs: Vec<Content> = (0..total).map(|i| Content { addr: 0, amt: if i == at { special } else { plain } }).collect();
     let mut o = Outcome::default();
-    for refs in [vec![], vec![total - 1]] {
+    for refs in [vec![], vec![at]] {
         let q = Query {
             address: Some(0),
             refs,
-            min: Some([Some(5), if with_token { Some(1) } else { None }, None]),
+            min: Some([Some(want), if with_token { Some(1) } else { None }, None]),
             many,
             collateral: false,
         };
@@ -549,7 +555,7 @@ fn run_window(total: usize, with_token: bool, many: bool) -> Outcome {
             for (sig, what) in vs {
                 o.violate(Violation::new(format!("{sig}|window"), what));
             }
-            o.key(hash64(&("window", total, with_token, many, q.refs.len(), rep)));
+            o.key(hash64(&("window", total, with_token, many, shape, q.refs.len(), rep)));
         }
     }
     o
@@ -565,7 +571,7 @@ impl Prop for C03 {
             "complete product: every multiset store of <= n UTxO contents (address in {{A,B}} x lovelace x T1 x T2) x every query \
              (from in {{none,A,B}} x ref in {{none, each stored ref, dangling, 2 multi-ref sets}} x min_amount over lovelace/T1/T2 incl. absent and 0 \
              x single/many x input/collateral) through tx3_resolver::inputs::resolve; alphabets: {:?}; every iteration order of the candidate set \
-             is enumerated for stores with identical contents (thorough: for every store); window stores of 49/50/51 UTxOs. Non-trivial = the resolver \
+             is enumerated for stores with identical contents (thorough: for every store); window stores of 49/50/51 UTxOs (the one covering UTxO first or last in ref order, or all of them needed). Non-trivial = the resolver \
              returned and the specification predicate was evaluated; distinct = distinct (alphabet, store multiset, query).",
             alphas(tier).iter().map(|a| format!("{}: lov<={} t1<={} t2<={} n<={} x{}", a.name, a.lov, a.t1, a.t2, a.n, a.scale)).collect::<Vec<_>>()
         )
@@ -597,7 +603,9 @@ impl Prop for C03 {
         for total in [49usize, 50, 51] {
             for with_token in [false, true] {
                 for many in [false, true] {
-                    sink.case(|| json!({"kind": "window", "total": total, "with_token": with_token, "many": many}));
+                    for shape in ["last-covers", "first-covers", "all-needed"] {
+                        sink.case(|| json!({"kind": "window", "total": total, "with_token": with_token, "many": many, "shape": shape}));
+                    }
                 }
             }
         }
@@ -619,6 +627,7 @@ impl Prop for C03 {
                 case["total"].as_u64().unwrap_or(50) as usize,
                 case["with_token"].as_bool().unwrap_or(false),
                 case["many"].as_bool().unwrap_or(false),
+                case["shape"].as_str().unwrap_or("last-covers"),
             ),
             _ => Outcome::default(),
         }
